@@ -155,11 +155,15 @@ def _discharge(ob, axioms, use_cvc5, both, t0):
         # quantified hypotheses: E-matching only (no model-based instantiation). unsat is a proof;
         # saturation without contradiction leaves a *candidate* counter-model that only counts once
         # it has been replayed on the real code.
-        s = _solver(axioms, ob.hyps, min(Z3_TIMEOUT_MS, 15000))
-        s.set("smt.mbqi", False)
-        s.set("auto_config", False)
-        s.add(z3.Not(goal))
-        r = s.check()
+        for budget in (min(Z3_TIMEOUT_MS, 15000), 4 * Z3_TIMEOUT_MS):
+            s = _solver(axioms, ob.hyps, budget)
+            s.set("smt.mbqi", False)
+            s.set("auto_config", False)
+            s.add(z3.Not(goal))
+            r = s.check()
+            # a verdict must not flip because the machine is busy: a timeout is retried once with a larger budget
+            if not (r == z3.unknown and _timed_out(s)):
+                break
         if r == z3.unsat:
             ob.verdict = "proved"
             ob.backend = "z3 (e-matching)"
@@ -175,9 +179,12 @@ def _discharge(ob, axioms, use_cvc5, both, t0):
                 return ob
             except z3.Z3Exception:
                 pass
-    s = _solver(axioms, ob.hyps, Z3_TIMEOUT_MS)
-    s.add(z3.Not(goal))
-    r = s.check()
+    for budget in (Z3_TIMEOUT_MS, 4 * Z3_TIMEOUT_MS):
+        s = _solver(axioms, ob.hyps, budget)
+        s.add(z3.Not(goal))
+        r = s.check()
+        if not (r == z3.unknown and _timed_out(s)) or quantified:
+            break
     ob.backend = "z3"
     if r == z3.unsat:
         ob.verdict = "proved"
@@ -211,6 +218,14 @@ def _discharge(ob, axioms, use_cvc5, both, t0):
                     ob.backend = "cvc5 (no model)"
     ob.time_s = time.time() - t0
     return ob
+
+
+def _timed_out(s):
+    try:
+        why = s.reason_unknown()
+    except z3.Z3Exception:
+        return False
+    return "timeout" in why or "canceled" in why or "resource" in why
 
 
 def _has_quant(f):
